@@ -257,9 +257,11 @@ func (m *Map[K, V]) LoadOrStore(key K, value V) (actual V, loaded bool) {
 	return actual, loaded
 }
 func (m *Map[K, V]) Range(f func(key K, value V) bool) {
-	m.m.Range(func(key, value_ interface{}) bool {
+	m.m.Range(func(key_, value_ interface{}) bool {
+		// As for values: a stored nil interface key (K = error, any, ...) fails a plain assertion.
+		key, _ := key_.(K)
 		value, _ := value_.(V)
-		return f(key.(K), value)
+		return f(key, value)
 	})
 }
 func (m *Map[K, V]) Store(key K, value V) {
